@@ -234,10 +234,13 @@ def bitmap(chk, repo):
                   len(writes), 1)
         if meth == "__init__":
             # the free test and the claim are one critical section
-            tests = [n for n in cfg.nodes if n.kind == "test" and isinstance(
-                n.stmt, ast.While) and any(isinstance(x, ast.BinOp)
-                                           and isinstance(x.op, ast.BitAnd)
-                                           for x in ast.walk(n.expr))]
+            def in_loop(st):
+                return isinstance(st, ast.While) or any(
+                    isinstance(p_, ast.While) for p_ in parents(st))
+            tests = [n for n in cfg.nodes if n.kind == "test" and in_loop(
+                n.stmt) and any(isinstance(x, ast.BinOp)
+                                and isinstance(x.op, ast.BitAnd)
+                                for x in ast.walk(n.expr))]
             need(len(tests) == 1, f"{sym}: the search for a free window "
                                   f"was not found")
             tn = tests[0]
